@@ -76,6 +76,14 @@ class Runner:
                          '%s: %s' % (type(e).__name__, str(e)[:200]), 'no out-of-bounds access',
                          key='oob:' + kernel)
                 return None
+            if isinstance(e, (ValueError, ZeroDivisionError, TypeError, SystemError, AssertionError)):
+                # every case is generated from the kernel's documented precondition, so the kernel must run to completion:
+                # e.g. numpy's 'cannot assign slice of shape (0, 3) from input of shape (2, 3)' is a store past the end
+                # of a view that the slice machinery refused
+                ctx.fail('%s raises on an input that satisfies its precondition' % kernel, dict(kernel=kernel, **case),
+                         '%s: %s' % (type(e).__name__, str(e)[:200]), 'runs to completion inside its arrays',
+                         key='raises:' + kernel)
+                return None
             raise
 
 
